@@ -35,8 +35,17 @@ def build(ctx):
     return ctx.go_build(PKG, [f for f in FILES if os.path.exists(os.path.join(vlib.VERIF, "harness", f))])
 
 
-def record(ctx, binp, test, behs=None, env=None, name="rec", timeout=1800):
-    """run the harness in record mode (behaviours on VERIF_IN, or its own random generator)"""
+def record(ctx, binp, test, behs=None, env=None, name="rec", timeout=1800, parts=1):
+    """run the harness in record mode (behaviours on VERIF_IN, or its own random generator); with parts > 1 the
+    behaviours are split over that many concurrent harness processes (the threshold is a process global)"""
+    if behs is not None and parts > 1 and len(behs) >= 4 * parts:
+        n = (len(behs) + parts - 1) // parts
+        with cf.ThreadPoolExecutor(max_workers=parts) as ex:
+            rs = list(ex.map(lambda i: record(ctx, binp, test, behs[i * n:(i + 1) * n], env, "%s_p%d" % (name, i), timeout),
+                             range(parts)))
+        if any(r is None for r in rs):
+            return None
+        return [e for r in rs for e in r]
     inp = ctx.write_ndjson("%s_in.ndjson" % name, behs) if behs is not None else None
     recs, out, rc = ctx.go_run(binp, test, pkg=PKG, infile=inp, env=env, mode="record", timeout=timeout)
     nreset = sum(1 for r in recs if r.get("ev") == "Reset")
@@ -140,7 +149,7 @@ def validate_runs(ctx, recs, cfg, name, chunk=4000, par=None, timeout=1500):
             end = next((i for i in range(h + 1, len(ch)) if ch[i].get("ev") == "Reset"), len(ch))
             bad = ch[h]
             nviol += 1
-            if nviol <= 10:
+            if nviol <= 3:
                 if True:
                     brief = {k: bad.get(k) for k in ("ev", "n", "t", "err", "mode", "thr", "maxLinks", "bk", "cidIs",
                                                      "cidDyn", "walkErr") if k in bad}
@@ -150,7 +159,7 @@ def validate_runs(ctx, recs, cfg, name, chunk=4000, par=None, timeout=1500):
                                        run_prefix=ch[start:h + 1], tlc_errors=res["errs"][:5]),
                                   name="%s_reject_%d.json" % (name, nviol))
             rest = ch[:start] + ch[end:]
-            if rest and nviol <= 10:
+            if rest and nviol < 3:
                 todo.append((idx * 1000 + nviol, rest))
             ctx.log("T %s chunk %d: rejected at %d/%d (%s)" % (name, idx, h, len(ch), res["violated"]))
     ctx.cov["transitions"] += states
@@ -208,37 +217,47 @@ def run(ctx):
                        "exhaustive for 6 base configurations, sampled for the rest; plus TLC -simulate 60-step histories; "
                        "plus random 120-step histories over 12 natural names.  non-trivial = run in which the listing "
                        "changed at least twice and (for HAMT runs) a sub-shard existed at some point")
-    # ---- M
-    ctx.tlc_mc("Directory", "Directory.tla", "MCDirectory.cfg", timeout=1500, coverage=not q,
-               allow_zero=("ResetTo",))
-    # ---- G: histories x cases
-    base = gen_cases(ctx, "GenDirectoryCasesBase15.cfg")
-    allc = gen_cases(ctx, "GenDirectoryCases15.cfg")
-    if not base or not allc:
+    ctx.specdir("Directory")
+    ex = cf.ThreadPoolExecutor(max_workers=8)
+    gen = lambda cfg, **kw: ex.submit(ctx.tlc_gen, "Directory", "GenDirectory.tla", cfg, **kw)
+    # ---- M (map + trie: Canonical, Resolvable for all kinds; the switching invariants belong to C16)
+    f_mc = ex.submit(ctx.tlc_mc, "Directory", "Directory.tla", "MCDirectoryMap.cfg", timeout=1500, coverage=not q,
+                     allow_zero=("ResetTo",), workers=4 if q else 8)
+    # ---- G: histories x cases (all generated by TLC), harness build concurrently
+    f_base = gen("GenDirectoryCasesBase15.cfg", marker="CASE", timeout=600)
+    f_all = gen("GenDirectoryCases15.cfg", marker="CASE", timeout=600)
+    f_ops = gen("GenDirectoryOps15D3.cfg" if q else "GenDirectoryOps15D4.cfg", timeout=1200, workers=2)
+    f_deep = None if q else gen("GenDirectoryOps15D5.cfg", timeout=2400, workers=4)
+    f_sim = gen("GenDirectorySim15.cfg", simulate=6 if q else 100, depth=61 * (2 if q else 4) + 1, timeout=1200)
+    f_bin = ex.submit(build, ctx)
+    base, allc, ops, sims, binp = f_base.result(), f_all.result(), f_ops.result(), f_sim.result(), f_bin.result()
+    if not base or not allc or not ops or not sims:
         return
-    ops = ctx.tlc_gen("Directory", "GenDirectory.tla", "GenDirectoryOps15D3.cfg" if q else "GenDirectoryOps15D4.cfg",
-                      timeout=1200, workers=4)
-    deep = [] if q else ctx.tlc_gen("Directory", "GenDirectory.tla", "GenDirectoryOps15D5.cfg", timeout=2400, workers=4)
-    sims = ctx.tlc_gen("Directory", "GenDirectory.tla", "GenDirectorySim15.cfg", simulate=12 if q else 150,
-                       depth=61 * (2 if q else 4) + 1, timeout=1200)
-    if not ops or not sims:
-        return
-    behs = [dict(w=c["w"], cfg=c["cfg"], ops=o) for c in base for o in ops]
+    rng = ctx.rng
+    behs = []
+    for i, c in enumerate(base):           # exhaustive for the base configurations (thorough: 3 exhaustive, 3 sampled)
+        sel = ops if (q or i % 2 == 0) else rng.sample(ops, min(3000, len(ops)))
+        if q:
+            sel = rng.sample(ops, min(len(ops), int(os.environ.get("VERIF_C15_SAMPLE", "450"))))
+        behs += [dict(w=c["w"], cfg=c["cfg"], ops=o) for o in sel]
     rest = [c for c in allc if c not in base]
-    ctx.rng.shuffle(rest)
-    nrest = 60 if q else len(rest)
-    per = 40 if q else 300
-    for c in rest[:nrest]:
-        for o in ctx.rng.sample(ops, min(per, len(ops))):
+    rng.shuffle(rest)
+    for c in rest[:40 if q else len(rest)]:
+        for o in rng.sample(ops, min(12 if q else 60, len(ops))):
             behs.append(dict(w=c["w"], cfg=c["cfg"], ops=o))
-    if deep:                                  # depth 5: exhaustive for two base cases
-        for c in [c for c in base if c["cfg"]["kind"] != "basic"][:2]:
-            behs += [dict(w=c["w"], cfg=c["cfg"], ops=o) for o in deep]
+    if f_deep:                                # depth 5: sampled for every non-basic base configuration
+        deep = f_deep.result()
+        for c in [c for c in base if c["cfg"]["kind"] != "basic"]:
+            behs += [dict(w=c["w"], cfg=c["cfg"], ops=o) for o in rng.sample(deep, min(8000, len(deep)))]
+        ctx.cov["exhaustive"] = True
     behs += sims
-    ctx.cov["exhaustive"] = True
-    binp = build(ctx)
-    recs = record(ctx, binp, "TestVerifC15", behs, name="g15", timeout=3000)
-    if recs is None:
+    ctx.log("G: %d histories (%d base configurations, %d of %d other configurations, %d simulated)" %
+            (len(behs), len(base), min(len(rest), 40 if q else len(rest)), len(rest), len(sims)))
+    recs = record(ctx, binp, "TestVerifC15", behs, name="g15", timeout=6000, parts=1 if q else 6)
+    # ---- T: random long histories over natural names (validated together with G)
+    rr = record(ctx, binp, "TestVerifC15", None, name="t15",
+                env=dict(C15_RUNS=5 if q else 40, C15_LEN=100 if q else 200, C15_NAMES=12))
+    if recs is None or rr is None:
         return
     ctx.sample(dict(cfg=behs[len(behs) // 2]["cfg"], ops=behs[len(behs) // 2]["ops"]))
 
@@ -247,7 +266,7 @@ def run(ctx):
         changes = sum(1 for a, b in zip(lists, lists[1:]) if a != b)
         return changes >= 2 and (run[0]["cfg"]["kind"] == "basic" or any(e.get("shards") for e in run[1:]))
     nontrivial_runs(ctx, recs, interesting)
-    validate_runs(ctx, recs, "TraceDirectoryMap.cfg", "g15")
+    nontrivial_runs(ctx, rr, interesting)
 
     def corrupt(run):
         idx = [i for i, e in enumerate(run) if e.get("ev") == "AddChild" and e.get("err") == "" and len(e["links"]) >= 2]
@@ -257,11 +276,7 @@ def run(ctx):
         bad = [dict(e) for e in run]
         bad[i]["async"] = bad[i]["async"][1:]          # EnumLinksAsync lost one entry
         return bad, i
-    negative_control(ctx, recs, "TraceDirectoryMap.cfg", "g15", corrupt)
-    # ---- T: random long histories over natural names
-    rr = record(ctx, binp, "TestVerifC15", None, name="t15",
-                env=dict(C15_RUNS=10 if q else 120, C15_LEN=120 if q else 300, C15_NAMES=12 if q else 16))
-    if rr is None:
-        return
-    nontrivial_runs(ctx, rr, interesting)
-    validate_runs(ctx, rr, "TraceDirectoryMap.cfg", "t15", chunk=1500)
+    f_neg = ex.submit(negative_control, ctx, recs, "TraceDirectoryMap.cfg", "g15", corrupt)
+    validate_runs(ctx, recs + rr, "TraceDirectoryMap.cfg", "g15+t15", chunk=5000 if q else 15000)
+    f_neg.result()
+    f_mc.result()
